@@ -14,3 +14,4 @@ import SecsModel.Props.C04
 #print axioms SecsModel.Props.C04.dispatch_no_lost_wakeup
 #print axioms SecsModel.Props.C04.reordered_handover_loses_wakeup
 #print axioms SecsModel.Props.C04.byte_queue_locked
+#print axioms SecsModel.Props.C04.dispatch_queue_unbounded
